@@ -169,7 +169,7 @@ func cmdScan(args []string) {
 	if os.Getenv("GVC_DEBUG") != "" {
 		P.DebugScan()
 	}
-	for _, group := range [][]gvc.ScanSite{P.ScanGlobalWrites(), P.ScanEngineWrites(), P.ScanStdout(), P.ScanContainment(), P.ScanImmutable(), P.ScanFuncTypes()} {
+	for _, group := range [][]gvc.ScanSite{P.ScanGlobalWrites(), P.ScanEngineWrites(), P.ScanStdout(), P.ScanContainment(), P.ScanImmutable(), P.ScanFuncTypes(), P.ScanInvocationWrites()} {
 		for _, s := range group {
 			st := "FAIL"
 			if s.OK {
